@@ -28,8 +28,9 @@ ASSUMPTIONS = ["the property's domain (in_domain of Spec_C06.v): every Length/da
                "FIX8_MAX_FLD_LENGTH - 1 = 2047 bytes (larger values are rejected with 'Value size too large'; 2048-byte "
                "values in SOH-delimited fields overflow val[] and belong to C03)",
                "Length/data pair = a Length-typed field (not BodyLength) whose successor in schema position is data-typed",
-               "inside repeating groups contents with SOH are generated only in the shape <bytes> SOH <digits> '=' <bytes>: a "
-               "token that fails to parse inside a group makes decode_group loop forever (C03's finding), which is kept out",
+               "inside repeating groups half of the contents with SOH have the shape <bytes> SOH <digits> '=' <bytes> (a token "
+               "that parses), the others are arbitrary (a token that fails to parse inside a group ended in an endless loop of "
+               "decode_group before /repo a0d41df; since then the group just ends there)",
                "fields other than the pair carry values canonical for their type"]
 RULE = ("every Length/data pair of the dumped metadata in every table (header, trailer, every message body, every repeating group "
         "down to the schema's depth), placed in a message with the mandatory fields of its surroundings and fields after it; "
@@ -176,7 +177,7 @@ def content_for(rng, kind, cls):
     """cls: 'small', 'soh', 'long', 'edge'."""
     in_group = kind == "G"
     if cls == "soh":
-        if in_group:
+        if in_group and rng.random() < 0.5:
             return group_safe(rng, rng.randint(4, 24))
         return rng.choice((SOHB, SOHB * 2, b"a\x01b", b"\x01=\x01", b"=\x01", b"a\x0158=x", b"x\x0110=000\x01",
                            b"\x0134=9\x01", rand_bytes(rng, 6, avoid=(0,)) + SOHB, b"8=FIX.4.2\x019=5\x01"))
